@@ -234,7 +234,9 @@ EXTRA_TEXT = {
     "C13": " Added: C13_underlap_attribute over the regenerated stateful validator (a passing call leaves the class attribute untouched; verdict and written string never depend on its old "
            "value); S13's pool has a ninth frame (multi-part lines that form node defects once merged).",
     "C14": " Added stream S14-slivers (corner slivers of 0.5-4 x snap: all four routes must agree).",
-    "C16": " S16-validation now also runs user-supplied thresholds 0.1 and 0.001.",
+    "C16": " S16-validation now also runs user-supplied thresholds 0.1 and 0.001. C16_boundary_lines_transparent: the regenerated loops of determine_boundary_intersecting_lines give the same "
+           "flags for any two candidate windows that contain every line within the threshold of a boundary (empty windows in any row position included); stream S16-multiarea runs "
+           "boundary flags, cropping and extraction on 2-3 area rows (some far from every trace) with the real index and the return-everything index.",
     "C17": " S17 adds the input with a CRS on the traces only and plain cold-then-warm repeats of crop / topology.",
     "C18": " S18 adds reordered / filtered precursor grids (index labels not 0..n-1). The two loops of create_grid are regenerated and C18_generated_grid proves they build exactly Grid.cells "
            "(so squareness, count, disjointness and cover are theorems about regenerated code); stream S18-generated compares the compiled regenerated loops with the real create_grid cell by cell.",
